@@ -1,23 +1,31 @@
 """C41 - exposed values respect cooldown and always end up on the bus.
 
 A real `ExposeSensor` (cooldown in {0,1,5} s, periodic_send in {0,7} s, value type
-binary / 2-byte float / string) lives in a real, connected XKNX (telegram queue, task
-registry, recording stub interface) on the virtual-time loop. Histories of
-`set(value, skip_unchanged)`, incoming GroupValueRead, `initialize_value` and time
-advances (gaps around the cooldown / periodic thresholds; all instants multiples of
-1/8 s) are generated as data. The oracle reads only the stub's telegram log and the
-history:
+binary / 2-byte float / string) lives in a real, connected XKNX (telegram queue with
+rate_limit in {0,5,20}, task registry, recording stub interface) on the virtual-time
+loop. Histories of `set(value, skip_unchanged)`, *bursts* of 2-4 `set()` calls made
+back-to-back without yielding to the loop, incoming GroupValueRead, `initialize_value`
+and time advances (gaps around the cooldown / periodic thresholds and below 1/rate; all
+gaps dyadic) are generated as data. The oracle reads only the stub's telegram log and
+the history; a history is flattened into *events* (one per set() call, read, init,
+advance) and 'most recent value' is defined over all set()/init events:
 
- S1 consecutive GroupValueWrite telegrams are >= cooldown apart (a write exactly one
-    periodic interval after the previous outgoing telegram is a periodic send and exempt);
- S2 for every set() not followed by another update within the cooldown: at
-    set-time + cooldown the value last on the bus (last outgoing write / response, or a
-    later-or-equal initialize_value, which counts as sent) carries that value;
- S3 every GroupValueRead is answered in the same instant by GroupValueResponse(s) that
-    carry the most recently set / initialized value;
+ S1 (rate limit 0) consecutive GroupValueWrite telegrams are >= cooldown apart (a pair
+    containing a write exactly one periodic interval after the previous outgoing
+    telegram is exempt: periodic sends are additional telegrams);
+ S2 for every set() not followed by another update within the window: at
+    set-time + cooldown (+ queue hold time when a rate limit is configured) the value
+    last on the bus (last outgoing write / response, or a later initialize_value, which
+    counts as sent) carries that value;
+ S3 the i-th GroupValueRead that finds a value is answered by the i-th
+    GroupValueResponse, which carries the value most recent at the read (rate limit 0:
+    in the same instant);
  S4 (skip_unchanged) is S2/S3 with 'most recent' defined over *all* set() calls: a legal
     skip never changes the most recent payload, an illegal one leaves a stale value;
- S5 no outgoing telegram ever carries a value other than the most recent one.
+ S5 the payloads on the bus follow the history: every telegram carries a value that was
+    the most recent one at some event not older than the event of the previous telegram
+    and not newer than its emission (rate limit 0: not older than the op before the one
+    during which it is emitted).
 
 Expected payloads come from fixed tables (KNX DPT 1 / 9.001 / 16.000 encodings written
 down by hand), not from the encoder under test.
@@ -38,20 +46,22 @@ from vk.xharness import XH
 
 PROPERTY = "C41"
 LEVEL = "exploration"
-TECHNIQUE = "model-based history testing (bounded exhaustive op sequences + Hypothesis histories) of a real ExposeSensor in a real XKNX on a virtual-time loop; oracle over the recorded outgoing telegram log"
+TECHNIQUE = "model-based history testing (bounded exhaustive op sequences + Hypothesis histories incl. back-to-back set() bursts and rate-limited queues) of a real ExposeSensor in a real XKNX on a virtual-time loop; oracle over the recorded outgoing telegram log"
 RULE = (
-    "case = (cooldown in {0,1,5} s, periodic_send in {0,7} s, value type binary | temperature | string, history over {set(value, skip_unchanged), GroupValueRead from the bus, initialize_value(value), advance by a gap around the thresholds}); "
-    "all op sequences up to length 3 (quick) / 4 (thorough) over {set A, set B, set A/B with skip_unchanged, read, advance cooldown/2, cooldown, cooldown+1/8} x cooldown {1,5} x periodic {0,7} are enumerated, longer histories (<= 14 ops) sampled; "
+    "case = (cooldown in {0,1,5} s, periodic_send in {0,7} s, XKNX rate_limit in {0,5,20}/s, value type binary | temperature | string, history over {set(value, skip_unchanged), burst of 2-4 set() calls without yielding to the loop, GroupValueRead from the bus, initialize_value(value), advance by a gap around the thresholds or below 1/rate}); "
+    "enumerated: all op sequences up to length 3 (quick) / 4 (thorough) over {set A, set B, set A/B with skip_unchanged, read, advance cooldown/2, cooldown, cooldown+1/8} x cooldown {1,5} x periodic {0,7}; "
+    "cooldown 0: all sequences up to length 2 (quick) / 3 (thorough) over single sets, read, an advance and all 2-set bursts over {A,B} x skip flag plus the A,B,A / B,A,B bursts; rate_limit {5,20} x cooldown 0: all sequences up to length 3 (4) over sets, read, advance 1/64 s, advance 1 s; longer histories (<= 14 ops) sampled; "
     "non-trivial = at least two updates of which one falls inside a running cooldown (or cooldown 0), or a read after an update, or an equal-payload set with skip_unchanged; distinct by case"
 )
-LEVEL_TEXT = "Generated update/read/initialize histories with timings around the cooldown and periodic thresholds run against the real ExposeSensor in virtual time; the four clauses of the statement are decided from the outgoing telegram log of a recording interface."
-LEVEL_NOTE = "Virtual time, single-threaded asyncio, always connected, rate limit 0, stub interface that confirms every frame; payload expectations from hand-written DPT tables; histories bounded (<= 14 ops; exhaustive up to 3/4)."
+LEVEL_TEXT = "Generated update/read/initialize histories (single and back-to-back updates, with and without an outgoing rate limit) with timings around the cooldown and periodic thresholds run against the real ExposeSensor in virtual time; the four clauses of the statement are decided from the outgoing telegram log of a recording interface."
+LEVEL_NOTE = "Virtual time, single-threaded asyncio, always connected, stub interface that confirms every frame; payload expectations from hand-written DPT tables; histories bounded (<= 14 ops; exhaustive up to 2-4 depending on the alphabet)."
 ASSUMPTIONS = [
-    "all instants are multiples of 1/8 s (exact in binary floating point); slack on every deadline 1e-6 s",
+    "all generated gaps are dyadic fractions of a second; slack on every deadline 1e-6 s (the rate limiter sleeps 1/rate, which is not dyadic)",
     "'value telegrams caused by updates' = GroupValueWrite telegrams; a write exactly periodic_send after the previous outgoing telegram is taken as a periodic send and a pair containing one is not held against the cooldown clause; responses to reads are not subject to it",
+    "with an XKNX rate limit the outgoing queue holds telegrams back: the cooldown-distance clause is not asserted there, 'within one cooldown' becomes 'within one cooldown + (number of telegrams the history can produce + 2)/rate', a read answer may be late but must be the next response and carry the value most recent at the read; initialize_value is not generated together with a rate limit",
     "'value last on the bus' = payload of the last outgoing GroupValueWrite/GroupValueResponse; initialize_value() counts as sent (its documented contract) and as the most recent value; values are compared by encoded payload (two values with equal encoding are 'unchanged')",
     "a read before any value exists needs no answer; reads arrive through the cEMI receive path; the connection stays up (a stub interface cannot refuse frames), no foreign writes to the exposed address",
-    "S5 (no telegram carries an older value than the most recent one at emission) is implied by 'answered with the most recent value' / 'always end up on the bus' and reported in its own bucket",
+    "S5 (payloads on the bus follow the order of the updates; nothing older than what was already sent, unless set again) is implied by 'answered with the most recent value' / 'always end up on the bus' and reported in its own bucket",
 ]
 
 GA = "1/2/3"
@@ -62,10 +72,32 @@ VALUES = {
     "string": [("", [0] * 14), ("a", [0x61] + [0] * 13), ("KNX is OK", [0x4B, 0x4E, 0x58, 0x20, 0x69, 0x73, 0x20, 0x4F, 0x4B, 0, 0, 0, 0, 0])],
 }
 SETTLE = 14
+DRAIN_MAX = 400
+
+
+def _n_out(case) -> int:
+    """Upper bound of telegrams the history itself can queue (sets + reads)."""
+    n = 0
+    for op in case["ops"]:
+        if op[0] == "burst":
+            n += len(op[1])
+        elif op[0] in ("set", "read"):
+            n += 1
+    return n
+
+
+def hold_s(case) -> float:
+    """Longest time the rate limiter can hold a telegram of this history back."""
+    rate = case.get("rate", 0)
+    return (_n_out(case) + 2) / rate if rate else 0.0
 
 
 def tail_s(case) -> float:
-    return case["cooldown"] + case["periodic"] + 1.0
+    return case["cooldown"] + case["periodic"] + 1.0 + 2 * hold_s(case)
+
+
+def _all_ops(case):
+    return list(case["ops"]) + [["adv", tail_s(case)]]
 
 
 # --------------------------------------------------------------------------- execution
@@ -78,9 +110,10 @@ def execute(case):
 
     obs = {"log": [], "op_exc": [], "slices": []}
     vals = VALUES[case["vtype"]]
+    rate = case.get("rate", 0)
 
     async def scenario(loop):
-        h = await XH.create(loop, rate_limit=0)
+        h = await XH.create(loop, rate_limit=rate)
         h.connect()
         sensor = ExposeSensor(
             h.xknx,
@@ -91,11 +124,20 @@ def execute(case):
             periodic_send=case["periodic"],
         )
         h.xknx.devices.async_add(sensor)
+        tq = h.xknx.telegram_queue
+
+        def drained() -> bool:
+            return h.xknx.telegrams.empty() and tq.outgoing_queue.empty() and not h.stub.inflight
+
         now = 0.0
-        for k, op in enumerate(list(case["ops"]) + [["adv", tail_s(case)]]):
+        for k, op in enumerate(_all_ops(case)):
             try:
                 if op[0] == "set":
                     await sensor.set(vals[op[1]][0], skip_unchanged=bool(op[2]))
+                elif op[0] == "burst":
+                    # back-to-back updates: ExposeSensor.set() never yields to the loop
+                    for vi, skip in op[1]:
+                        await sensor.set(vals[vi][0], skip_unchanged=bool(skip))
                 elif op[0] == "init":
                     sensor.initialize_value(vals[op[1]][0])
                 elif op[0] == "read":
@@ -103,7 +145,7 @@ def execute(case):
                 elif op[0] == "adv":
                     await asyncio.sleep(op[1])
                     now += op[1]
-                    if loop.time() != now:
+                    if abs(loop.time() - now) > 1e-9:
                         raise HarnessError(f"virtual clock {loop.time()} != {now}")
             except HarnessError:
                 raise
@@ -111,9 +153,19 @@ def execute(case):
                 obs["op_exc"].append((k, exc_site(e), repr(e)))
             for _ in range(SETTLE):
                 await asyncio.sleep(0)
+            if not rate:
+                # without a rate limit everything queued is on the bus within the same instant
+                n = 0
+                while not drained() and n < DRAIN_MAX:
+                    await asyncio.sleep(0)
+                    n += 1
+                for _ in range(6):
+                    await asyncio.sleep(0)
+                if abs(loop.time() - now) > 1e-9:
+                    raise HarnessError("settling advanced the virtual clock")
             obs["slices"].append(len(h.stub.sent))
-        if not h.xknx.telegrams.empty() or h.stub.inflight:
-            raise HarnessError("telegram queue not drained after settle")
+        if not drained():
+            raise HarnessError("telegram queue not drained at the end of the history")
         for r in h.stub.sent:
             tg = r["telegram"]
             p = getattr(tg, "payload", None)
@@ -129,12 +181,43 @@ def execute(case):
 # --------------------------------------------------------------------------- oracle
 
 
+def flatten(case):
+    """Events (op index, time, kind, value index, skip) and per-op first/last event index."""
+    vals = VALUES[case["vtype"]]
+    ops = _all_ops(case)
+    ev = []
+    first, last = [], []
+    t = 0.0
+    for k, op in enumerate(ops):
+        first.append(len(ev))
+        if op[0] == "burst":
+            for vi, skip in op[1]:
+                ev.append({"op": k, "t": t, "kind": "set", "vi": vi, "skip": bool(skip)})
+        elif op[0] == "set":
+            ev.append({"op": k, "t": t, "kind": "set", "vi": op[1], "skip": bool(op[2])})
+        elif op[0] == "init":
+            ev.append({"op": k, "t": t, "kind": "init", "vi": op[1], "skip": False})
+        else:
+            ev.append({"op": k, "t": t, "kind": op[0], "vi": None, "skip": False})
+            if op[0] == "adv":
+                t += op[1]
+        last.append(len(ev) - 1)
+    cur = None
+    for e in ev:
+        if e["kind"] in ("set", "init"):
+            cur = vals[e["vi"]][1]
+        e["recent"] = cur
+    return ops, ev, first, last, t
+
+
 def judge(ctx, case, obs) -> None:
     inp = case
     c = case["cooldown"]
     P = case["periodic"]
+    rate = case.get("rate", 0)
     vals = VALUES[case["vtype"]]
-    ops = list(case["ops"]) + [["adv", tail_s(case)]]
+    ops, ev, first, last, t_end = flatten(case)
+    hold = hold_s(case)
     failed = set()
 
     def fail(bucket, detail):
@@ -146,14 +229,6 @@ def judge(ctx, case, obs) -> None:
         fail(f"C41:op-raised:{ops[k][0]}:{site}", f"op {k} {ops[k]}: {rep}")
     for name, rep, msg in obs["escaped"]:
         fail(f"C41:escaped:{name}", f"{rep} {msg}")
-    # op start times and log slices
-    t = 0.0
-    t_op = []
-    for op in ops:
-        t_op.append(t)  # instant at which a non-advance op happens / an advance starts
-        if op[0] == "adv":
-            t += op[1]
-    t_end = t
     log = obs["log"]
     entry_op = []
     k = 0
@@ -164,103 +239,119 @@ def judge(ctx, case, obs) -> None:
     for i, (tt, kind, val, dest) in enumerate(log):
         if kind not in ("GroupValueWrite", "GroupValueResponse") or dest != GA:
             fail("C41:unexpected-telegram", f"{kind} to {dest} at t={tt}")
-    # most recent value (payload) after each op
-    recent = []
-    cur = None
-    for op in ops:
-        if op[0] in ("set", "init"):
-            cur = vals[op[1]][1]
-        recent.append(cur)
-    # ---- S5 / S3: payload of every outgoing telegram, answers to reads ----------
+    short = [(round(e[0], 4), e[1][10:], e[2]) for e in log][:14]
+    # ---- S5: the payloads on the bus follow the order of the updates -------------
+    j_prev = 0
     for i, (tt, kind, val, dest) in enumerate(log):
         k = entry_op[i]
-        if recent[k] is None or val != recent[k]:
+        lo = max(j_prev, (max(first[k] - 1, 0) if not rate else 0))
+        j = next((j for j in range(lo, last[k] + 1) if ev[j]["recent"] is not None and ev[j]["recent"] == val), None)
+        if j is None:
             rel = "read-answer" if kind == "GroupValueResponse" else "write"
-            fail(f"C41:stale-value-sent:{rel}", f"{kind} at t={tt} (during op {k} {ops[k]}) carries {val}; most recent value is {recent[k]}")
-    for k, op in enumerate(ops):
-        if op[0] != "read" or recent[k] is None:
-            continue
-        answers = [log[i] for i in range(len(log)) if entry_op[i] == k and log[i][1] == "GroupValueResponse"]
-        if not answers:
-            fail("C41:read-not-answered", f"read at op {k} t={t_op[k]}: no GroupValueResponse in that instant (most recent value {recent[k]})")
-        elif any(a[0] != t_op[k] for a in answers):
-            fail("C41:read-answer-late", f"read at op {k} t={t_op[k]} answered at {[a[0] for a in answers]}")
+            newest = ev[last[k]]["recent"]
+            fail(f"C41:stale-value-sent:{rel}", f"{kind} at t={tt} (during op {k} {ops[k]}) carries {val}, which was not the most recent value at any event since the previous telegram (most recent now: {newest}); log {short}")
+        else:
+            j_prev = j
+    # ---- S3: reads are answered with the most recent value -------------------------
+    reads = [j for j, e in enumerate(ev) if e["kind"] == "read" and e["recent"] is not None]
+    responses = [i for i in range(len(log)) if log[i][1] == "GroupValueResponse"]
+    for n, j in enumerate(reads):
+        e = ev[j]
+        if n >= len(responses):
+            fail("C41:read-not-answered", f"read at op {e['op']} t={e['t']}: no GroupValueResponse (most recent value {e['recent']}); log {short}")
+            break
+        i = responses[n]
+        if entry_op[i] < e["op"]:
+            fail("C41:read-answer-mismatch", f"response #{n} at t={log[i][0]} precedes read #{n} at op {e['op']}")
+            break
+        if log[i][2] != e["recent"]:
+            fail("C41:read-answer-not-most-recent", f"read at op {e['op']} t={e['t']} answered with {log[i][2]} at t={log[i][0]}; most recent value at the read is {e['recent']}; log {short}")
+        if not rate and (entry_op[i] != e["op"] or abs(log[i][0] - e["t"]) > SLACK):
+            fail("C41:read-answer-late", f"read at op {e['op']} t={e['t']} answered at t={log[i][0]} (op {entry_op[i]})")
     # ---- S1: cooldown between writes ---------------------------------------------
-    if c > 0:
+    if c > 0 and not rate:
         writes = [e for e in log if e[1] == "GroupValueWrite"]
+
+        def periodic(w):
+            prev = [e[0] for e in log if e[0] < w[0] - SLACK]
+            return bool(P and prev and abs(w[0] - prev[-1] - P) <= SLACK)
+
         for w1, w2 in zip(writes, writes[1:]):
             if w2[0] - w1[0] < c - SLACK:
-                def periodic(w):
-                    prev = [e[0] for e in log if e[0] < w[0]]
-                    return bool(P and prev and abs(w[0] - prev[-1] - P) <= SLACK)
-
                 if periodic(w1) or periodic(w2):
                     continue  # a periodic send is an additional telegram, not one caused by an update
-                fail("C41:cooldown-violated", f"GroupValueWrite at t={w1[0]} and t={w2[0]} with cooldown {c}; log {[(e[0], e[1][10:], e[2]) for e in log][:12]}")
+                fail("C41:cooldown-violated", f"GroupValueWrite at t={w1[0]} and t={w2[0]} with cooldown {c}; log {short}")
                 break
     # ---- S2 (+S4): the latest value is on the bus one cooldown after the update ----
-    for k, op in enumerate(ops):
-        if op[0] != "set":
+    for j, e in enumerate(ev):
+        if e["kind"] != "set":
             continue
-        d = t_op[k] + c
-        if any(o[0] in ("set", "init") and t_op[j] <= d + SLACK for j, o in enumerate(ops) if j > k):
+        d = e["t"] + c + hold
+        if any(x["kind"] in ("set", "init") and x["t"] <= d + SLACK for x in ev[j + 1 :]):
             continue  # not the last update of its window
         if d > t_end:
             continue
-        p = vals[op[1]][1]
-        last = None
-        for i, e in enumerate(log):
-            if e[0] <= d + SLACK:
-                last = (entry_op[i], e[2], f"{e[1]} at t={e[0]}")
-        for j in range(k + 1):
-            if ops[j][0] == "init" and (last is None or last[0] <= j):
-                last = (j, vals[ops[j][1]][1], f"initialize_value at op {j}")
-        if last is None or last[1] != p:
-            rel = "skip_unchanged" if op[2] else "plain"
+        p = vals[e["vi"]][1]
+        seen = None
+        for i, entry in enumerate(log):
+            if entry[0] <= d + SLACK:
+                seen = (entry_op[i], entry[2], f"{entry[1]} at t={entry[0]}")
+        for x in ev[: j + 1]:
+            if x["kind"] == "init" and (seen is None or seen[0] <= x["op"]):
+                seen = (x["op"], vals[x["vi"]][1], f"initialize_value at op {x['op']}")
+        if seen is None or seen[1] != p:
+            rel = "skip_unchanged" if e["skip"] else "plain"
             fail(
                 f"C41:latest-value-not-on-bus:{rel}",
-                f"set({vals[op[1]][0]!r}, skip_unchanged={bool(op[2])}) at op {k} t={t_op[k]}: at t={d} the value last on the bus is {last[1] if last else None} ({last[2] if last else 'nothing sent'}), expected {p}",
+                f"set({vals[e['vi']][0]!r}, skip_unchanged={e['skip']}) at op {e['op']} t={e['t']}: at t={d} the value last on the bus is {seen[1] if seen else None} ({seen[2] if seen else 'nothing sent'}), expected {p}; log {short}",
             )
 
 
 def classify(case):
     c = case["cooldown"]
-    cls = {f"cooldown={c}", f"periodic={case['periodic']}", case["vtype"]}
-    t = 0.0
+    rate = case.get("rate", 0)
+    cls = {f"cooldown={c}", f"periodic={case['periodic']}", case["vtype"], f"rate={rate}"}
+    _ops, ev, _f, _l, _t = flatten(case)
+    ev = [e for e in ev if e["op"] < len(case["ops"])]
     last_send_cause = None
     updates = 0
     nontrivial = False
-    seen_update = False
     last_payload = None
     vals = VALUES[case["vtype"]]
+    recent_sets = []  # payloads of the sets since the loop last ran (same op) / within 1/rate
     for op in case["ops"]:
-        if op[0] == "adv":
-            t += op[1]
-            if op[1] in (c, case["periodic"]) and op[1]:
-                cls.add("gap=threshold")
-        elif op[0] == "set":
+        if op[0] == "burst":
+            cls.add("burst")
+            pl = [vals[vi][1] for vi, _s in op[1]]
+            if len(pl) >= 2 and any(s for _v, s in op[1][1:]):
+                cls.add("burst-with-skip")
+        elif op[0] == "adv" and op[1] and op[1] in (c, case["periodic"]):
+            cls.add("gap=threshold")
+        elif op[0] == "adv" and rate and op[1] < 1 / rate:
+            cls.add("gap<1/rate")
+    for e in ev:
+        if e["kind"] == "set":
             updates += 1
-            if updates >= 2 and (c == 0 or (last_send_cause is not None and t - last_send_cause < c)):
+            p = vals[e["vi"]][1]
+            if updates >= 2 and (c == 0 or (last_send_cause is not None and e["t"] - last_send_cause < c)):
                 nontrivial = True
                 if c:
                     cls.add("set-in-cooldown")
-            if op[2] and last_payload == vals[op[1]][1]:
+            if e["skip"] and last_payload == p:
                 nontrivial = True
                 cls.add("skip-equal")
-            elif op[2]:
+            elif e["skip"]:
                 cls.add("skip-different")
-            last_payload = vals[op[1]][1]
-            seen_update = True
-            last_send_cause = t
-        elif op[0] == "init":
-            last_payload = vals[op[1]][1]
-            seen_update = True
+                recent_sets.append(p)
+            last_payload = p
+            last_send_cause = e["t"]
+        elif e["kind"] == "init":
+            last_payload = vals[e["vi"]][1]
             cls.add("initialize")
-        elif op[0] == "read":
-            if seen_update:
-                nontrivial = True
-                cls.add("read-after-update")
-                last_send_cause = t
+        elif e["kind"] == "read" and last_payload is not None:
+            nontrivial = True
+            cls.add("read-after-update")
+            last_send_cause = e["t"]
     return nontrivial, sorted(cls)
 
 
@@ -279,22 +370,26 @@ def check_case(ctx, case) -> None:
 
 
 def selftest(ctx) -> None:
-    # the judge on synthetic logs: a correct trace passes, a stale / early one fails
+    # the judge on synthetic logs: a correct trace passes, a stale / early / lost one fails
     from vk.core import Ctx
 
+    def run_judge(case, obs):
+        c = Ctx("C41", "quick", 1)
+        judge(c, case, dict({"op_exc": [], "escaped": []}, **obs))
+        return set(c.failures)
+
+    W, R = "GroupValueWrite", "GroupValueResponse"
     case = {"cooldown": 5, "periodic": 0, "vtype": "binary", "ops": [["set", 1, False], ["adv", 1.0], ["set", 0, False]]}
-    good = {"op_exc": [], "escaped": [], "slices": [1, 1, 1, 2], "log": [(0.0, "GroupValueWrite", 1, GA), (5.0, "GroupValueWrite", 0, GA)]}
-    c1 = Ctx("C41", "quick", 1)
-    judge(c1, case, good)
-    assert not c1.failures, c1.failures
-    early = dict(good, slices=[1, 1, 2, 2], log=[(0.0, "GroupValueWrite", 1, GA), (1.0, "GroupValueWrite", 0, GA)])
-    c2 = Ctx("C41", "quick", 1)
-    judge(c2, case, early)
-    assert "C41:cooldown-violated" in c2.failures
-    lost = dict(good, slices=[1, 1, 1, 1], log=[(0.0, "GroupValueWrite", 1, GA)])
-    c3 = Ctx("C41", "quick", 1)
-    judge(c3, case, lost)
-    assert "C41:latest-value-not-on-bus:plain" in c3.failures
+    assert run_judge(case, {"slices": [1, 1, 1, 2], "log": [(0.0, W, 1, GA), (5.0, W, 0, GA)]}) == set()
+    assert "C41:cooldown-violated" in run_judge(case, {"slices": [1, 1, 2, 2], "log": [(0.0, W, 1, GA), (1.0, W, 0, GA)]})
+    assert "C41:latest-value-not-on-bus:plain" in run_judge(case, {"slices": [1, 1, 1, 1], "log": [(0.0, W, 1, GA)]})
+    # back-to-back A,B,A with skip_unchanged on a sensor without cooldown: all three must reach the bus
+    burst = {"cooldown": 0, "periodic": 0, "vtype": "binary", "ops": [["burst", [[0, True], [1, True], [0, True]]], ["read"]]}
+    assert run_judge(burst, {"slices": [3, 4, 4], "log": [(0.0, W, 0, GA), (0.0, W, 1, GA), (0.0, W, 0, GA), (0.0, R, 0, GA)]}) == set()
+    bad = run_judge(burst, {"slices": [2, 3, 3], "log": [(0.0, W, 0, GA), (0.0, W, 1, GA), (0.0, R, 1, GA)]})
+    assert {"C41:latest-value-not-on-bus:skip_unchanged", "C41:read-answer-not-most-recent"} <= bad, bad
+    # an older value after a newer one is stale even inside one burst
+    assert "C41:stale-value-sent:write" in run_judge(burst, {"slices": [3, 4, 4], "log": [(0.0, W, 1, GA), (0.0, W, 0, GA), (0.0, W, 1, GA), (0.0, R, 0, GA)]})
 
 
 # --------------------------------------------------------------------------- generation
@@ -304,42 +399,76 @@ def _enum_ops(c):
     return [["set", 0, False], ["set", 1, False], ["set", 0, True], ["set", 1, True], ["read"], ["adv", c / 2], ["adv", float(c)], ["adv", c + 0.125]]
 
 
-def _enum_shard(ctx, c, P, vtype, L) -> None:
-    alphabet = _enum_ops(c)
+def _burst_ops():
+    singles = [[v, s] for v in (0, 1) for s in (False, True)]
+    out = [["burst", [a, b]] for a in singles for b in singles]
+    for s1 in (False, True):
+        for s2 in (False, True):
+            out.append(["burst", [[0, True], [1, s1], [0, s2]]])
+            out.append(["burst", [[1, False], [0, s1], [1, s2]]])
+    return out
+
+
+def _alphabet(kind, c, rate):
+    if kind == "cooldown":
+        return _enum_ops(c)
+    sets = [["set", 0, False], ["set", 1, False], ["set", 0, True], ["set", 1, True]]
+    if kind == "burst":
+        return sets + [["read"], ["adv", 0.5]] + _burst_ops()
+    # rate limited: single updates spaced below 1/rate, or far apart
+    return sets + [["read"], ["adv", 1 / 64], ["adv", 1.0]]
+
+
+def _enum_shard(ctx, kind, c, P, rate, vtype, L) -> None:
+    alphabet = _alphabet(kind, c, rate)
     for length in range(1, L + 1):
         n = nt = 0
         for ops in itertools.product(alphabet, repeat=length):
             if ops[-1][0] == "adv":
                 continue  # the tail advance subsumes it
-            case = {"cooldown": c, "periodic": P, "vtype": vtype, "ops": [list(o) for o in ops]}
+            case = {"cooldown": c, "periodic": P, "rate": rate, "vtype": vtype, "ops": [list(o) for o in ops]}
             check_case(ctx, case)
             n += 1
             if classify(case)[0]:
                 nt += 1
             if n % 397 == 5:
                 ctx.sample(case)
-        ctx.bulk(n, nt, f"enum-c{c}-p{P}-L{length}")
+        ctx.bulk(n, nt, f"enum-{kind}-c{c}-p{P}-r{rate}-L{length}")
 
 
 GAPS = [0.125, 0.5, 0.875, 1.0, 1.125, 2.0, 2.5, 4.875, 5.0, 5.125, 6.875, 7.0, 7.125, 9.0]
+SMALL_GAPS = [1 / 64, 1 / 32, 1 / 16, 0.125]
 
 
 @st.composite
 def cases(draw):
     vtype = draw(st.sampled_from(["binary", "temperature", "string"]))
     nv = len(VALUES[vtype])
-    c = draw(st.sampled_from([0, 1, 5, 5]))
+    c = draw(st.sampled_from([0, 0, 1, 5, 5]))
     P = draw(st.sampled_from([0, 7]))
-    op = st.one_of(
-        st.tuples(st.just("set"), st.integers(0, nv - 1), st.booleans()),
-        st.tuples(st.just("set"), st.integers(0, nv - 1), st.booleans()),
+    rate = draw(st.sampled_from([0, 0, 0, 5, 20]))
+    # a tiny value pool makes A,B,A patterns likely
+    pool = draw(st.lists(st.integers(0, nv - 1), min_size=2, max_size=2, unique=True)) if draw(st.booleans()) else list(range(nv))
+    value = st.sampled_from(pool)
+    one_set = st.tuples(value, st.booleans())
+    alts = [
+        st.tuples(st.just("set"), value, st.booleans()),
+        st.tuples(st.just("set"), value, st.booleans()),
+        st.tuples(st.just("burst"), st.lists(one_set, min_size=2, max_size=4)),
         st.tuples(st.just("read")),
-        st.tuples(st.just("adv"), st.sampled_from(GAPS)),
-        st.tuples(st.just("adv"), st.sampled_from(GAPS)),
-        st.tuples(st.just("init"), st.integers(0, nv - 1)),
-    )
-    ops = [list(o) for o in draw(st.lists(op, min_size=1, max_size=14))]
-    return {"cooldown": c, "periodic": P, "vtype": vtype, "ops": ops}
+        st.tuples(st.just("adv"), st.sampled_from(GAPS + SMALL_GAPS if rate else GAPS)),
+        st.tuples(st.just("adv"), st.sampled_from(SMALL_GAPS if rate else GAPS)),
+    ]
+    if not rate:
+        alts.append(st.tuples(st.just("init"), value))
+    raw = draw(st.lists(st.one_of(*alts), min_size=1, max_size=14))
+    ops = []
+    for o in raw:
+        o = list(o)
+        if o[0] == "burst":
+            o[1] = [list(x) for x in o[1]]
+        ops.append(o)
+    return {"cooldown": c, "periodic": P, "rate": rate, "vtype": vtype, "ops": ops}
 
 
 def _hyp_oracle(ctx, case) -> None:
@@ -352,7 +481,6 @@ def _hyp_shard(ctx, n: int) -> None:
     hyp_search(ctx, cases(), _hyp_oracle, n, shrink_cap_s=5.0 if ctx.quick else 30.0)
 
 
-
 def _procs(want: int = 8) -> int:
     """Pool size: scheduling only (shards and seeds are the same for every pool size).
     On a saturated machine the fork pool costs several times the sequential run."""
@@ -362,12 +490,16 @@ def _procs(want: int = 8) -> int:
         load = 0.0
     return want if load < cpu_count() else 1
 
+
 def run(ctx) -> None:
     L = ctx.n(3, 4)
-    jobs = [(c, P, vtype, L) for c in (1, 5) for P in (0, 7) for vtype in ("binary", "temperature")]
+    jobs = [("cooldown", c, P, 0, vtype, L) for c in (1, 5) for P in (0, 7) for vtype in ("binary", "temperature")]
+    jobs += [("burst", 0, P, 0, vtype, ctx.n(2, 3)) for P in (0, 7) for vtype in ("binary", "temperature")]
+    jobs += [("rate", 0, P, rate, "binary", L) for P in (0, 7) for rate in (5, 20)]
     parallel(ctx, _enum_shard, jobs, procs=_procs())
     parallel(ctx, _hyp_shard, [(ctx.n(300, 4000),)] * 8, procs=_procs())
     ctx.notes["exhaustive_op_sequences_up_to"] = L
+    ctx.notes["exhaustive_burst_sequences_up_to"] = ctx.n(2, 3)
     ctx.exhaustive = False
 
 
